@@ -81,10 +81,10 @@ class MatFamily(Family):
         return 'plain' not in cell
 
     def eval(self, m):
-        return eval_matrix(m)
+        return eval_matrix(m, aliased=self.name.endswith('/aliased-rows'))
 
 
-def eval_matrix(m):
+def eval_matrix(m, aliased=False):
     R, C = len(m), len(m[0])
     unknowns = C - 1
     rk = exact_rank([r[:-1] for r in m])
@@ -98,7 +98,13 @@ def eval_matrix(m):
     base = 'C16|solve|%dx%d|%s' % (R, C, 'consistent' if consistent else 'inconsistent')
     sc = core.enc([[F(x) for x in r] for r in m])
     viols = []
-    sol = lib.call(solve, [list(r) for r in m])
+    if aliased:
+        # equal rows are passed as one and the same list object (a legal way to write down a matrix)
+        objs = {}
+        arg = [objs.setdefault(tuple(r), list(r)) for r in m]
+    else:
+        arg = [list(r) for r in m]
+    sol = lib.call(solve, arg)
     if isinstance(sol, lib.Raised):
         return cell, [Viol(base + '|raises:' + sol.cls, sc, 'a Solution object', repr(sol), 'solve() raised')]
     truthy = lib.call(bool, sol)
@@ -144,7 +150,85 @@ I1 = (0, 1, -1)
 H = (0, 1, -1, 0.5, -0.5)
 
 
+def eval_sequence(m1, m2):
+    """solve(A); the caller then overwrites its own list in place with system B and solves that; then system A is
+    written down again from scratch and solved; finally the first Solution is called again.  Every answer must be
+    right for the system it belongs to."""
+    viols = []
+    sc = core.enc(('sequence', [[F(x) for x in r] for r in m1], [[F(x) for x in r] for r in m2]))
+
+    def check(tag, m, sol):
+        rk = exact_rank([r[:-1] for r in m])
+        cons = rk == exact_rank(m)
+        t = lib.call(bool, sol)
+        if t is not cons:
+            viols.append(Viol('C16|sequence|%s|wrong-truthiness' % tag, sc, cons, lib.describe(t), tag))
+            return
+        if not cons:
+            return
+        want = (len(m[0]) - 1) - rk
+        if getattr(sol, 'varargs', None) != want:
+            viols.append(Viol('C16|sequence|%s|wrong-varargs' % tag, sc, want, lib.describe(getattr(sol, 'varargs', None)), tag))
+            return
+        vals = lib.call(sol, *([0.5, -1, 2][:want]))
+        if isinstance(vals, lib.Raised) or not isinstance(vals, tuple) or any(v is None for v in vals):
+            viols.append(Viol('C16|sequence|%s|bad-solution' % tag, sc, 'numbers', lib.describe(vals), tag))
+            return
+        for row in m:
+            lhs = sum(float(a) * float(x) for a, x in zip(row[:-1], vals))
+            if abs(lhs - row[-1]) > 1e-9 * (1 + abs(row[-1]) + sum(abs(float(a) * float(x)) for a, x in zip(row[:-1], vals))):
+                viols.append(Viol('C16|sequence|%s|not-a-solution' % tag, sc, 'every equation satisfied', lib.describe(vals), tag))
+                return
+
+    work = [list(r) for r in m1]
+    s1 = lib.call(solve, work)
+    if isinstance(s1, lib.Raised):
+        return 'sequence', [Viol('C16|sequence|first|raises:' + s1.cls, sc, 'Solution', repr(s1), '')]
+    check('first', m1, s1)
+    for i, r in enumerate(m2):
+        work[i] = list(r)
+    s2 = lib.call(solve, work)
+    if not isinstance(s2, lib.Raised):
+        check('second-after-overwriting-the-list', m2, s2)
+    s3 = lib.call(solve, [list(r) for r in m1])
+    if not isinstance(s3, lib.Raised):
+        check('first-system-written-down-again', m1, s3)
+    return 'sequence', viols
+
+
+class SeqFamily(Family):
+    def __init__(self, R, C, alpha, step):
+        self.name = 'sequence/%dx%d' % (R, C)
+        base = MatFamily('x', R, C, alpha)
+        self.ms = [base.matrix(i) for i in range(0, base.total, step)]
+        self.total = len(self.ms) * len(self.ms)
+        self._shards = [(i, min(i + 4, len(self.ms))) for i in range(0, len(self.ms), 4)]
+
+    def shards(self):
+        return self._shards
+
+    def scenes(self, shard):
+        for a in self.ms[shard[0]:shard[1]]:
+            for b in self.ms:
+                yield (a, b)
+
+    def enc_scene(self, s):
+        return core.enc(('sequence', [[F(x) for x in r] for r in s[0]], [[F(x) for x in r] for r in s[1]]))
+
+    def eval(self, s):
+        return eval_sequence(s[0], s[1])
+
+    def nontrivial(self, cell):
+        return True
+
+
 def families(tier):
+    return _families(tier) + [MatFamily('2x3/aliased-rows', 2, 3, I2), MatFamily('3x3/{-1,0,1}/aliased-rows', 3, 3, I1),
+                              MatFamily('3x4/{-1,0,1}/aliased-rows', 3, 4, I1, chunk=40000),
+                              SeqFamily(2, 3, I1, 3 if tier == 'quick' else 1), SeqFamily(2, 4, I1, 41 if tier == 'quick' else 7)]
+
+
+def _families(tier):
     fams = [
         MatFamily('1x3', 1, 3, I2), MatFamily('2x3', 2, 3, I2), MatFamily('1x4', 1, 4, I2),
         MatFamily('3x3/{-1,0,1}', 3, 3, I1), MatFamily('3x4/{-1,0,1}', 3, 4, I1),
@@ -164,12 +248,14 @@ def run(tier, seed):
     res = core.run_families('C16', fams, seed)
     res.rule = ('every augmented matrix of each listed shape over the listed entry alphabet, enumerated once '
                 '(distinct by construction); non-trivial = rank-deficient, inconsistent or zero leading column')
-    res.alphabets = {f.name: {'shape': [f.R, f.C], 'entries': [str(a) for a in f.alpha], 'matrices': f.total} for f in fams}
+    res.alphabets = {f.name: ({'shape': [f.R, f.C], 'entries': [str(a) for a in f.alpha], 'matrices': f.total} if hasattr(f, 'alpha') else f.total) for f in fams}
     res.alphabets['free-parameter values'] = [str(x) for x in FREE]
     return res
 
 
 def replay(family, scene):
     fam = MatFamily('replay', 1, 3, I2)
+    if isinstance(scene, list) and scene and scene[0] == 'sequence':
+        return eval_sequence(fam.dec_scene(scene[1]), fam.dec_scene(scene[2]))[1]
     m = fam.dec_scene(scene)
-    return eval_matrix(m)[1]
+    return eval_matrix(m, aliased=str(family).endswith('/aliased-rows'))[1]
